@@ -17,9 +17,8 @@
      field, 4 anything else (syntax, strconv / base64 errors, unsupported key type, the escaping errNull of a top-level null).
 
    Peculiarities of the code that are reproduced (not judged here):
-   * a JSON string for a descriptor that takes none (bool, containers, numbers without String2Int64) matches no branch of the
-     V_STRING case, falls out of the switch, and the surrounding `for ret < n` loop decodes the NEXT value for the same descriptor;
-     at the end of the text the call returns with nothing written and nil error;
+   * (fixed by /repo 11a56b9, finding 212: a JSON string for a descriptor that takes none used to fall out of the V_STRING switch and
+     the surrounding loop converted the NEXT value; it is a type mismatch now);
    * skipString accepts a string literal that is cut off by the end of the text (its last byte is dropped as if it were the quote);
    * numbers: leading zeros (007), "-.5", "1." are accepted (strconv syntax); an integer literal beyond int64 is read as a float;
      a float that overflows is read as 0 (the ErrRange of ParseFloat is ignored in DecodeValue); WriteInt casts without range check;
@@ -534,7 +533,7 @@ Section Walk.
                 | PFUnmod => WUnmod
                 | _ => WErr W_OTHER
                 end
-              else walk f t r                               (* no branch matched: the for loop decodes the next value *)
+              else WErr W_DISMATCH                          (* since /repo 11a56b9: no branch matched = type mismatch (before: fell out of the switch) *)
             end
           | TkArr =>
             match t with
